@@ -157,6 +157,16 @@ CHECKS["C11"] = dict(
          "Multi-document streams and aliases are out of the statement.",
     ref="DESIGN.md §6 P-C11")
 
+CHECKS["C10"] = dict(
+    technique="runtime monitoring: independent pointer-walk and source-position monitor over structured reports and hooked loader dumps",
+    text="Documents written by a position-tracking emitter in 4 layouts are validated against rules that fail on every node (one clause per scalar, "
+         "unresolved probes below every map/list/scalar, `in`, list iteration and query right-hand sides); every reported from/to/traversed_to {path, "
+         "value} is resolved in the model document by an independent walk and must yield exactly that value, unresolved reports must stop at the "
+         "deepest existing point of the queried path, and every [L,C] in messages - and, through the verif-hooks loader probe, of every scalar node - "
+         "must equal the line/column where the emitter wrote that scalar.",
+    note="Only scalar positions are asserted. The roles from/to of query-to-query comparisons are not asserted (the statement only requires that reported paths point into the document).",
+    ref="DESIGN.md §6 P-C10")
+
 PENDING = {}
 
 
